@@ -67,6 +67,13 @@ VARIANTS = [
     ("C04", "fire", BC, "    border_batch = border_batch[..., facet]\n\n    if isinstance(u, PINN):\n        vmap_in_axes_params", "    border_batch = border_batch[..., 0]\n\n    if isinstance(u, PINN):\n        vmap_in_axes_params", 0),
     ("C04", "fire", LU, 'facet_tree = {"xmin": 0, "xmax": 1, "ymin": 2, "ymax": 3}', 'facet_tree = {"xmin": 0, "xmax": 1, "ymin": 3, "ymax": 2}', 0),
     ("C04", "silent", BC, "n = jnp.array([[-1, 1, 0, 0], [0, 0, -1, 1]])", "n = jnp.array([[-1.0, 1.0, 0.0, 0.0], [0.0, 0.0, -1.0, 1.0]])", 0),
+    # single-row batches, weights replaced after construction
+    ("C03", "fire", LU, "        residuals = v_dyn_loss(*batches, params)\n        if residuals.ndim == 1:", "        residuals = jnp.squeeze(v_dyn_loss(*batches, params))\n        if residuals.ndim == 1:", 0),
+    ("C03", "silent", LU, "        residuals = v_dyn_loss(*batches, params)\n        if residuals.ndim == 1:", "        residuals = jnp.asarray(v_dyn_loss(*batches, params))\n        if residuals.ndim == 1:", 0),
+    ("C05", "fire", LU, "jnp.abs(jnp.mean(res, axis=(-2, -1)) * int_length - 1) ** 2", "jnp.abs(jnp.mean(res.squeeze(), axis=-1) * int_length - 1) ** 2", 0),
+    ("C05", "silent", LU, "jnp.abs(jnp.mean(res, axis=(-2, -1)) * int_length - 1) ** 2", "jnp.abs(jnp.mean(res.squeeze(-1), axis=-1) * int_length - 1) ** 2", 0),
+    ("C14", "fire", DG, "            t_ = t.reshape(new.temporal_batch_size, 1, 1)\n            t_ = jnp.repeat(t_, dx.shape[-1], axis=2)", "            t_ = jnp.resize(t, (new.temporal_batch_size, 1, dx.shape[-1]))", 0),
+    ("C14", "silent", DG, "            t_ = t.reshape(new.temporal_batch_size, 1, 1)\n            t_ = jnp.repeat(t_, dx.shape[-1], axis=2)", "            t_ = jnp.repeat(t.reshape(new.temporal_batch_size, 1), dx.shape[-1], axis=1).reshape(new.temporal_batch_size, 1, dx.shape[-1])", 0),
     # ---- C05
     ("C05", "fire", LU, "jnp.abs(jnp.mean(res, axis=(-2, -1)) * int_length - 1) ** 2", "jnp.abs(jnp.mean(res, axis=(-2, -1)) - 1) ** 2 * int_length", 0),
     ("C05", "fire", LU, "lambda x, params: initial_condition_fun(x) - u(jnp.zeros((1,)), x, params),", "lambda x, params: initial_condition_fun(x) - u(jnp.ones((1,)), x, params),", 0),
